@@ -36,7 +36,7 @@ CLAIMS = {
                 'proved lower bound strlen >= j derived from the switch selector; zero- vs sign-extension of each byte from the '
                 'type-checked cast chain; bytes accumulated per length.  The tag-padding clause is decided as a taint/sibling rule: '
                 'both implementations of the space->zero normalisation implement the same four cases, and every tag-taking entry '
-                'normalises before any other use.  Holds for all strings/tags because no run-time value enters the argument.  A string handed to a fixed-width reader (be::peek/read, memcpy of constant length) is decided against the proved strlen bound; a buffer handed to a C string function is a violation (tags may contain zero bytes); normalisers written as loops over constants are unrolled by a bounded abstract execution.',
+                'normalises before any other use.  Holds for all strings/tags because no run-time value enters the argument.  A string handed to a fixed-width reader (be::peek/read, memcpy of constant length) is decided against the proved strlen bound; a buffer handed to a C string function is a violation (tags may contain zero bytes); normalisers written as loops over constants are unrolled by a bounded abstract execution. Round 4: every return of gr_str_to_tag hands back the accumulated tag variable itself (not a value a function made of it).',
         'note': 'Trusted: clang 14 parser/CFG/constant folder, tools/grfacts, rules/c20.py, rules/tagnorm.py; the rule knows the '
                 'switch-on-length form and constant-offset stores, any other shape is exit 2 (analysis broken), never a pass.',
         'technique': 'CFG path enumeration + constant-offset pointer tracking + length lattice on switch edges + cast-chain typing (custom clang plugin facts)',
@@ -74,7 +74,7 @@ CLAIMS = {
                 'null-tested before use; user-attribute indexing is guarded; slots are allocated only at the tabled, budgeted sites '
                 '(decMax, growth refusal, post-pass size test, extendLength accounting); limit constants equal the extents they index; '
                 'recursion depth cut-offs dominate the recursive calls; the per-pass loop counter is consulted on the advance path and '
-                'forced >= 1.  NOT decided: float-derived indexing in the colliders, the work bound as a number, leak-freedom.  Also decided: the number of SlotMap::pushSlot calls on any path through Pass::runFSM, computed from its constant-initialised counter by a bounded abstract execution, fits the slot map; the attach.to slot-map index in Slot::setAttr is unsigned (or bounded below) and below map.size(). Round 3: MAPWINDOW (a pointer formed as slotMap().begin() + signed offset is dominated by a test that this very difference is >= 0, compared as linear forms so that the arrangement of terms or a hoisted local does not matter; a comparison made after a conversion to unsigned does not count).',
+                'forced >= 1.  NOT decided: float-derived indexing in the colliders, the work bound as a number, leak-freedom.  Also decided: the number of SlotMap::pushSlot calls on any path through Pass::runFSM, computed from its constant-initialised counter by a bounded abstract execution, fits the slot map; the attach.to slot-map index in Slot::setAttr is unsigned (or bounded below) and below map.size(). Round 3: MAPWINDOW (a pointer formed as slotMap().begin() + signed offset is dominated by a test that this very difference is >= 0, compared as linear forms so that the arrangement of terms or a hoisted local does not matter; a comparison made after a conversion to unsigned does not count). Round 4: ADVIDX (every Font::advance(g) call is dominated by g < numGlyphs -- directly or through a non-null GlyphCache::glyphSafe(g) result -- because the hinted-advance cache has one cell per glyph); the free-interval vector of the collision fixer is never accessed through an iterator that an insertion may have invalidated (C17 ZONESET).',
         'note': 'Trusted: clang 14 CFG/constant folder, tools/grfacts, rules/vmsym.py, rules/dom.py, and the hand-confirmed tables in '
                 'rules/c02.py (allowed newSlot/extendLength callers with reasons).  Allocation failure is outside the quantifier.',
         'technique': 'CFG dominance (edge-cut) + path rules + who-may-call over resolved callees + symbolic stack-offset analysis of opcode handlers',
@@ -88,7 +88,7 @@ CLAIMS = {
                 'owned memory and on globals must be empty; writes through API parameters must be to documented out-parameters.  Side '
                 'rules: no mutable global or guarded static reachable, SHARED classes hold no pointer to per-call objects, features are '
                 'copied by value, const-cast inventory.  Because a history can influence a later call only through such memory, this '
-                'covers all API interleavings.  Equality of two result dumps is NOT decided (runtime values).  LAZYFILL: each lazily filled cell receives only its loader\'s result, and the filling call returns the cell it filled (not a differently converted or substitute value). Round 3: a lazily filled accessor does not return a local that was set from the cell before the fill ran (stale-local return).',
+                'covers all API interleavings.  Equality of two result dumps is NOT decided (runtime values).  LAZYFILL: each lazily filled cell receives only its loader\'s result, and the filling call returns the cell it filled (not a differently converted or substitute value). Round 3: a lazily filled accessor does not return a local that was set from the cell before the fill ran (stale-local return). Round 4: every cell of Font::m_advances starts as the sentinel Font::advance tests (Font::Font interpreted for faces of 0..5 glyphs).',
         'note': 'Trusted: clang 14 code generator (-O0 + sroa/mem2reg) and typed pointers, tools/grir, rules/eff.py ownership lattice, the '
                 'SHARED / PER-CALL class partition (total: an unclassified struct is exit 2), the three-row lazy-cache table with reasons, '
                 'the out-parameter table.  The application must not modify the table bytes it lent to the face.',
@@ -117,7 +117,7 @@ CLAIMS = {
                 'table-derived pointer is stored into memory that outlives the table; (5) the destructor of every class frees each of the '
                 '45 allocator-assigned fields on every path and every function-local allocation reaches a release or hand-over on every '
                 'non-allocation-failure path (the failed gr_make_face exits); (6) the C09 rules that no table is asked for after '
-                'gr_face_preloadAll.  Allocator balance as a number is NOT decided.  decompress() releases the borrowed table before it sets the ownership flag. Round 3: OPSFLOW (every entry point that takes the client\'s gr_face_ops hands that whole struct on to Face::Face; re-packing single members drops release_table).',
+                'gr_face_preloadAll.  Allocator balance as a number is NOT decided.  decompress() releases the borrowed table before it sets the ownership flag. Round 3: OPSFLOW (every entry point that takes the client\'s gr_face_ops hands that whole struct on to Face::Face; re-packing single members drops release_table). Round 4: OWNLOCAL also covers locals that receive a fresh allocation by assignment or from a function every return of which is a fresh allocation (gr_make_seg::tmp_feats), follows plain local / parameter copies as aliases and asks a per-callee ownership summary whether a call argument is really handed over; the Face::Table constructor drops a pointer it got from get_table only through release(); the ownership rules are evaluated on the GRAPHITE2_NFILEFACE configuration in the quick tier as well; the DirectCmap same-lifetime allowance of NOESCAPE requires DirectCmap to hold the table as a member.',
         'note': 'Trusted: clang 14 (front end, code generator), tools/grfacts, tools/grir, rules/c16.py, rules/noescape.py, rules/dom.py; tabled '
                 'exceptions with reasons (placement-new Code objects, GlyphCache box block).  Allocation failure is outside the quantifier.',
         'technique': 'compile-fail witness + CFG typestate/must-pass rules + who-may-call + interprocedural pointer-taint (escape) analysis on LLVM IR',
@@ -129,7 +129,7 @@ CLAIMS = {
                 'instantiated only with iteration/lookup functions of one format, the (plane, format) routing is identical -- DirectCmap '
                 'splits on usv > 0xFFFF, CachedCmap\'s two fill passes are called with windows (0xFFFF, 0x10FFFF) for format 12 and '
                 '(0, 0xFFFF) for format 4 and store only inside the window -- the pseudo-glyph fallback is consulted exactly when the '
-                'cmap returned 0 at both users, and the cached block table is indexed only under the bounds matching its allocation.  NARROWREAD (shared with C01): no table field, e.g. a pseudo-glyph code point, is truncated when stored. Round 3: NEXTINRANGE (each cmap iterator returns c + 1 as \'next in the same range\' only under a dominating strict test end > c, as linear forms).',
+                'cmap returned 0 at both users, and the cached block table is indexed only under the bounds matching its allocation.  NARROWREAD (shared with C01): no table field, e.g. a pseudo-glyph code point, is truncated when stored. Round 3: NEXTINRANGE (each cmap iterator returns c + 1 as \'next in the same range\' only under a dominating strict test end > c, as linear forms). Round 4: SEGSEARCH -- CmapSubtable4Lookup, CmapSubtable12Lookup and Silf::findPseudo only compare code points while searching, so they are interpreted over every order type of (sorted table of up to 4 segments / 3 groups / 3 entries, character, range hint): the segment containing the character is the one whose glyph data is used, 0 is answered exactly when none contains it (the glyph arithmetic after the selection stays value-level); gr_face_is_char_supported asks the cmap on every path; a table field forwarded through a local is not implicitly narrowed where it is handed on.',
         'note': 'Trusted: clang 14 CFG, tools/grfacts, rules/c13.py, rules/dom.py.  The binary-search / group-scan arithmetic inside '
                 'TtfUtil::CmapSubtable4Lookup/12Lookup/NextCodepoint is value-level and out of reach (a seeded off-by-one there is a recorded miss).',
         'technique': 'sibling cross-check of two implementations (call arguments, guards, selectors) over AST/CFG facts + dominance rules',
@@ -142,7 +142,7 @@ CLAIMS = {
                 'the link fields, newSlot returns slots with null links, slot-count accounting (extendLength exactly once per '
                 'INSERT/DELETE), indices assigned on one traversal between the substitution and positioning runs and by nobody else, the '
                 'loader rejects INSERT/DELETE once indices exist, the pseudo real-glyph clamp on every path.  NOT decided: finiteness of '
-                'positions, glyph-id validity beyond the clamp (font data), reverseSlots beyond two loop iterations per loop.  reverseSlots is executed symbolically to a depth that covers its diacritic-run branch, with two further rules: a redirected link must not leave the old neighbour pointing back (R8) and every relinked slot stays on the forward chain from the head (R9). Round 3: PUT_COPY identity (after the whole-slot memcpy into the live slot every path executes firstChild(NULL), nextSibling(NULL) -- before the slot joins its parent\'s child list --, markCopied(false) and markDeleted(false)); WIDTH (no store into Slot::m_index / Segment::m_numGlyphs, and no accessor return of them, goes through an implicit narrowing conversion).',
+                'positions, glyph-id validity beyond the clamp (font data), reverseSlots beyond two loop iterations per loop.  reverseSlots is executed symbolically to a depth that covers its diacritic-run branch, with two further rules: a redirected link must not leave the old neighbour pointing back (R8) and every relinked slot stays on the forward chain from the head (R9). Round 3: PUT_COPY identity (after the whole-slot memcpy into the live slot every path executes firstChild(NULL), nextSibling(NULL) -- before the slot joins its parent\'s child list --, markCopied(false) and markDeleted(false)); WIDTH (no store into Slot::m_index / Segment::m_numGlyphs, and no accessor return of them, goes through an implicit narrowing conversion). Round 4: FREEDSLOT (no dereference of a slot variable is reachable after Segment::freeSlot(x) before x is re-defined); the Slot constructor, which is what wipes a recycled slot, initialises every data member and nulls every link; CLASSBOUND (Silf::getClassGlyph, interpreted on a small class map for every class and index, answers for a linear class only from a cell of that class).',
         'note': 'Trusted: clang 14 CFG, tools/grfacts, rules/linksym.py (symbolic link heap, pre-state axioms), rules/dom.py, the tabled mutator '
                 'set with reasons.  Paths are complete up to two visits per block; deeper iterations are not explored.',
         'technique': 'symbolic shape analysis (abstract link-heap execution per CFG path) + who-may-write + dominance/ordering rules',
@@ -155,7 +155,7 @@ CLAIMS = {
                 'still the true tail, and the symbolic composition addLineEnd;delLineEnd restores every link of every pre-existing slot (both '
                 'shapes) and frees the sentinel; gr_slot_linebreak_before nulls exactly the three links across the cut; list mutators are '
                 'rejected in justification passes.  NOT decided: finiteness of widths/origins, and that reverseSlots undoes itself for every '
-                'arrangement of diacritics (value-dependent relinking).  Also: reverseSlots never uses m_last as the end of the list (justify calls it, through positionSlots, with m_last narrowed to the line) and toggles the reversed flag on every path; gr_slot_linebreak_before cuts exactly the links of p->prev() and p. Round 3: the saved head/tail are read after the entry reversal (no reverseSlots between the save and the narrowing write); JUSTPOOL (every record address formed in Segment::newJustify has index <= count - 1, the range of the loop variable taken from its initial value and step direction, as linear forms); SENTINEL (if delLineEnd reads its argument from m_first / m_last, no call between the addLineEnd store and it can reach a writer of that field -- this rule reports the recorded defect F12, listed in known_findings.json).',
+                'arrangement of diacritics (value-dependent relinking).  Also: reverseSlots never uses m_last as the end of the list (justify calls it, through positionSlots, with m_last narrowed to the line) and toggles the reversed flag on every path; gr_slot_linebreak_before cuts exactly the links of p->prev() and p. Round 3: the saved head/tail are read after the entry reversal (no reverseSlots between the save and the narrowing write); JUSTPOOL (every record address formed in Segment::newJustify has index <= count - 1, the range of the loop variable taken from its initial value and step direction, as linear forms); SENTINEL (if delLineEnd reads its argument from m_first / m_last, no call between the addLineEnd store and it can reach a writer of that field -- this rule reports the recorded defect F12, listed in known_findings.json). Round 4: NULLWALK (every dereference of a variable that walks `s = s->prev()/next()` in Segment::positionSlots is under a non-null test: a line cut off by gr_slot_linebreak_before need not contain the slot the walk is aimed at); ADVIDX (shared with C02) for the hinted-advance lookup done while justify positions with the caller\'s gr_font.',
         'note': 'Trusted: clang 14 CFG, tools/grfacts, rules/c19.py, rules/linksym.py, rules/dom.py.  The allocation-failure exit `return -1.0` '
                 'is exempt (DESIGN.md section 7, F7).',
         'technique': 'CFG must-pass / pairing rules with correlated-condition edge cuts + symbolic composition of two functions on an abstract link heap',
@@ -169,7 +169,7 @@ CLAIMS = {
                 'absent, refuse self, unlink exactly the removed node); freeSlot leaves its parent and orphans only children that name it as '
                 'parent; PUT_COPY refuses attached slots and rebuilds the links; TEMP_COPY marks its copy; finalisation rebuilds the base '
                 'chain over bases only.  The induction itself (that these steps compose to a forest for every rule sequence) is argued in '
-                'DESIGN.md and not mechanised.  TEMP_COPY marks its copy after the whole-slot copy (the mark would otherwise be overwritten). Round 3: PUT_COPY identity on every path (see C03); removeChild completeness (on every path that reports \'not a child\' because the walk ran off the end of the sibling chain, each chain node it passed was compared with the slot to remove).',
+                'DESIGN.md and not mechanised.  TEMP_COPY marks its copy after the whole-slot copy (the mark would otherwise be overwritten). Round 3: PUT_COPY identity on every path (see C03); removeChild completeness (on every path that reports \'not a child\' because the walk ran off the end of the sibling chain, each chain node it passed was compared with the slot to remove). Round 4: BASECHAIN by bounded abstract execution -- Segment::linkClusters with Slot::next/isBase/sibling inlined is interpreted on every stream of up to 5 slots x base/attached pattern x direction bit: no attached slot\'s sibling link (and no slot outside the base chain) is rewritten and the chain visits every base exactly once; ATTACH/childreg -- a refusal of Slot::child() is never ignored where a parent link is or stays set (reported F13 on the pre-fix tree); the Slot constructor nulls m_parent / m_child / m_sibling.',
         'note': 'Trusted: clang 14 CFG, tools/grfacts, rules/c04.py, rules/linksym.py, rules/dom.py, the tabled writer sets.',
         'technique': 'dominance-fact rules + symbolic execution of list primitives over an abstract heap + who-may-write tables',
     },
@@ -181,7 +181,7 @@ CLAIMS = {
                 'second unit only after a high surrogate; on every path of every get() the step length handed to the iterator satisfies '
                 '1 <= |l| <= 1 + the number of further units that passed their test (constant propagation over the CFG), so no unvetted '
                 'unit -- in particular a terminating NUL -- is stepped over; a constant inequality over the lead-byte tables shows leads above '
-                'F4 are rejected through the limit test; the iterator advances by abs(l).  Every decode that can run with a buffer end lies, on every path, after a successful first.validate(last) and after a first != last test since the iterator last moved.',
+                'F4 are rejected through the limit test; the iterator advances by abs(l).  Every decode that can run with a buffer end lies, on every path, after a successful first.validate(last) and after a first != last test since the iterator last moved. Round 4: _utf_codec<W>::validate, interpreted on buffers of -1..6 units with every unit class its own constants distinguish, reads no unit outside [s, e) (W = 8, 16, 32); _utf_codec<32>::get, over an exact partition of the 32-bit unit by its comparison constants and masks, returns every scalar value unchanged with length +1 and every unit >= 0x110000 as U+FFFD with a negative length.',
         'note': 'Trusted: clang 14 CFG and constant folder, tools/grfacts, rules/c11.py, rules/dom.py.',
         'technique': 'CFG dominance / must-pass rules + constant propagation of the step length per path + constant-table inequality',
     },
@@ -215,7 +215,7 @@ CLAIMS = {
                 'the passes, the VM or the colliders has a Font parameter; (2) Font::scale() is read only by the five tabled functions; '
                 '(3) a flow-sensitive dimension analysis (design units vs pixels, the scale converts) of the float arithmetic of those five '
                 'functions on every font != NULL path: no sum, difference, comparison or store mixes the two units, nothing is scaled twice '
-                'or divided by the scale in the wrong direction -- the structural condition for linear scaling.  gr_slot_advance_X/Y return a pixel value on every path on which a font is present. Round 3: a pixel-unit value is never compared with a non-zero absolute threshold (the outcome would flip with the scale).',
+                'or divided by the scale in the wrong direction -- the structural condition for linear scaling.  gr_slot_advance_X/Y return a pixel value on every path on which a font is present. Round 3: a pixel-unit value is never compared with a non-zero absolute threshold (the outcome would flip with the scale). Round 4: the pixels-per-em value travels from every gr_make_font* entry to the m_scale initialiser as a floating-point value (no integer-typed parameter, no floating->integral conversion on the way).',
         'note': 'Trusted: clang 14 CFG, tools/grfacts, rules/c15.py, rules/units.py (unit tables keyed by resolved fields / getters, unknown '
                 'units are compatible with everything so only definite mixes are reported; at most 4000 paths per function).',
         'technique': 'argument-provenance rule + who-may-call + flow-sensitive dimension (unit) analysis over CFG paths',
@@ -228,7 +228,7 @@ CLAIMS = {
                 'maximum computed from them, where the 16-bit setting value is compared after zero-extension; the constructor moves the bit '
                 'offset to the next chunk on every path on which a field would straddle; both clone sites go through the copy constructor; '
                 'the Sill entry is selected by tag equality with the defaults as fallback; the setting-index test; and the shared '
-                'tag-normalisation rule (space- and zero-padded tags). Round 3: the shift m_bits of a FeatureRef is computed after the chunk bump and before the advance of the running offset; LENUNIT (getName reports the length in units written into the buffer it returns, for every encoding branch); IDORDER (no ordering of 32-bit ids by the sign of their wrapped difference).',
+                'tag-normalisation rule (space- and zero-padded tags). Round 3: the shift m_bits of a FeatureRef is computed after the chunk bump and before the advance of the running offset; LENUNIT (getName reports the length in units written into the buffer it returns, for every encoding branch); IDORDER (no ordering of 32-bit ids by the sign of their wrapped difference). Round 4: a language tag / feature id read from Sill or Feat and forwarded through a local is not implicitly narrowed on its way into FeatureRef::applyValToFeature (NARROWREAD, forwarded form).',
         'note': 'Trusted: clang 14 CFG and type checker (cast chains), tools/grfacts, rules/c18.py, rules/tagnorm.py, rules/dom.py.',
         'technique': 'CFG failure-atomicity / dominance rules + cast-chain typing + must-pass on the chunk bump + sibling tag-normalisation rule',
     },
@@ -239,7 +239,7 @@ CLAIMS = {
                 'glyphs through Loader::read_glyph / read_box and are the only writers of the cache cells; cells of the lazily filled cache '
                 'are read only by the loader and the tabled accessors that run on already-loaded glyphs (a predicate evaluated before the load '
                 'must not look at them); the file face is distinguished from a callback face only for ownership; and the shared C13 rules '
-                'that the direct and the cached cmap select sub-tables and route planes identically.  OPTFLOW also decides which parameter of each face-construction entry point reaches the options word (exactly faceOptions). Round 3: OPSSIZE (Face::m_ops is zeroed and then filled with min(sizeof m_ops, ops.size) bytes, nothing else writes it), BOXPARITY (whether the lazy loader creates a glyph\'s box does not depend on values the loader reported for that one glyph), NEXTINRANGE via C13.',
+                'that the direct and the cached cmap select sub-tables and route planes identically.  OPTFLOW also decides which parameter of each face-construction entry point reaches the options word (exactly faceOptions). Round 3: OPSSIZE (Face::m_ops is zeroed and then filled with min(sizeof m_ops, ops.size) bytes, nothing else writes it), BOXPARITY (whether the lazy loader creates a glyph\'s box does not depend on values the loader reported for that one glyph), NEXTINRANGE via C13. Round 4: SEGSEARCH (shared with C13) -- the format 4 / format 12 searches find the segment that contains the character both without a range hint (direct cmap) and with it (cached cmap), decided over every order type of small sorted tables.',
         'note': 'Trusted: clang 14 CFG, tools/grfacts, rules/c10.py, rules/c13.py.  Value-level lookup arithmetic inside TtfUtil is out of reach.',
         'technique': 'parameter taint (use classification) + sibling / who-may-call / who-may-read tables over resolved declarations',
     },
@@ -251,7 +251,7 @@ CLAIMS = {
                 'cross-state merge use it in both directions and drop duplicates; findNDoRule runs the action of the first candidate whose '
                 'constraint passed; none of the 45 opcode handlers bound for constraint code calls a stream mutator and the loader rejects '
                 'non-immutable constraints (so a rule that does not fire leaves the glyph unchanged); the pass index only moves forward apart '
-                'from the tabled bidi re-entry; freed slots have their whole user-attribute block wiped before reuse.  Also: the qsort comparator is evaluated over its three order types; every block copy / wipe of a slot\'s user attributes covers count * element size; the reversed-stream flag is toggled on every path through reverseSlots.',
+                'from the tabled bidi re-entry; freed slots have their whole user-attribute block wiped before reuse.  Also: the qsort comparator is evaluated over its three order types; every block copy / wipe of a slot\'s user attributes covers count * element size; the reversed-stream flag is toggled on every path through reverseSlots. Round 4: every state\'s rule list is sorted with cmpRuleEntry at load under no guard other than the empty-list test; Segment::passBits() is read inside the pass loop (not hoisted across passes that create glyphs); Segment::glyphAttr hands glyph attributes to rule code as signed 16-bit values.',
         'note': 'Trusted: clang 14 CFG, tools/grfacts, rules/c06.py, rules/vm.py.  Everything about which rule matches where is out of reach of this family.',
         'technique': 'abstract evaluation over order types (comparison-only function) + structural / call-set purity rules',
     },
